@@ -38,14 +38,24 @@ def prepare(tier, schema, farm_name, options=None, want_docs=None):
             for dname, doc in docs:
                 entries.append({"focus": "lattice " + "+".join(fs), "labels": [dname], "doc": doc, "query": gql.render_doc(doc),
                                 "errs": gql.validate(sch, doc), "schema": sch, "schema_name": "lattice " + "+".join(fs)})
-    reqs = [gen_request(e["schema"].sdl(), e["query"], options) for e in entries]
+    if want_docs is None and options is None:
+        # the same operations under a second option set (the property is not conditional on options): Rust
+        # normalization, other-variant, skip-none - for the lattice pack and every single-item operation
+        from genlib import DEFAULT_OPTS
+        alt = dict(DEFAULT_OPTS, normalization="rust", other_variant=True, skip_none=True)
+        more = []
+        for e in entries:
+            if e["schema_name"] != "CORE" or len(e["labels"]) == 1:
+                more.append(dict(e, opts=alt, focus=e["focus"] + " [normalization=rust, other-variant, skip-none]"))
+        entries = entries + more
+    reqs = [gen_request(e["schema"].sdl(), e["query"], e.get("opts", options)) for e in entries]
     resps = generate(reqs)
     farm = Farm(farm_name)
     for e, r in zip(entries, resps):
         e["gen"] = r["status"]
         e["gen_msg"] = r.get("msg")
         if r["status"] == "ok" and not e["errs"]:
-            c = Case(r["tokens"], [("op", "Op")], prelude="pub type Date = String; pub type Zoned = String; pub type date_time = String;")
+            c = Case(r["tokens"], [("op", "Op")], prelude="pub type Date = String; pub type Zoned = String; pub type date_time = String; pub type DateTime = String;")
             e["case"] = farm.add(c)
         else:
             e["case"] = None
@@ -85,7 +95,7 @@ def run(tier):
     per_op_fail = {}
     suspects = []
     for (e, choices, payload, what), r, q in zip(meta, resps, reqs):
-        case = {"schema": e["schema_name"], "query": e["query"], "payload": payload, "entry": what, "focus": e["focus"],
+        case = {"schema": e["schema_name"], "query": e["query"], "payload": payload, "entry": what, "focus": e["focus"], "options": e.get("opts", "default"),
                 "items": e["labels"]}
         if e["schema_name"] != "CORE":
             case["sdl"] = e["schema"].sdl()
